@@ -689,7 +689,7 @@ func (e *fnEnc) unop(c *blockCtx, in *ssa.UnOp) {
 		} else {
 			e.vals[in] = v
 		}
-		e.havocAll(c.st) // other goroutines may have run
+		e.recvEffect(c, v, e.recvElemType(in)) // other goroutines may have run
 	default:
 		e.fail("unsupported unary op %s", in.Op)
 	}
@@ -1333,6 +1333,54 @@ func (e *fnEnc) selectInstr(c *blockCtx, in *ssa.Select) {
 			res = append(res, v)
 		}
 	}
-	e.havocAll(c.st)
+	var recvVal Term
+	var recvType types.Type
+	for i, s := range in.States {
+		if s.Dir == types.RecvOnly {
+			recvVal = res[2+countRecvBefore(in, i)]
+			recvType = types.Unalias(s.Chan.Type()).Underlying().(*types.Chan).Elem()
+		}
+	}
+	e.recvEffect(c, recvVal, recvType)
 	e.tuples[in] = res
+}
+
+func countRecvBefore(in *ssa.Select, i int) int {
+	n := 0
+	for j := 0; j < i; j++ {
+		if in.States[j].Dir == types.RecvOnly {
+			n++
+		}
+	}
+	return n
+}
+
+func (e *fnEnc) recvElemType(in *ssa.UnOp) types.Type {
+	return types.Unalias(in.X.Type()).Underlying().(*types.Chan).Elem()
+}
+
+// recvEffect: a channel receive lets other goroutines run. Without a declared
+// channel contract the whole heap is forgotten; with `recv_assigns` only the
+// listed locations are, and `recv_ensures` (over `recv`, the received value) is
+// assumed (an assumed channel contract, listed in the evidence).
+func (e *fnEnc) recvEffect(c *blockCtx, v Term, t types.Type) {
+	as := e.ctr.Get("recv_assigns")
+	if len(as) == 0 {
+		e.havocAll(c.st)
+		return
+	}
+	pseudo := &FuncContract{Pkg: e.pkg, Options: map[string]string{}}
+	for _, cl := range as {
+		pseudo.Clauses = append(pseudo.Clauses, &Clause{Kind: "assigns", Text: cl.Text})
+	}
+	env := e.envAt(c.b, e.curIdx, c.st)
+	e.applyAssigns(c, pseudo, env)
+	env = e.envAt(c.b, e.curIdx, c.st)
+	if v.S != "" {
+		env.vars["recv"] = SVal{t: v, typ: t}
+	}
+	for _, cl := range e.ctr.Get("recv_ensures") {
+		e.assert(imp(c.reach, e.evalBool(cl.E, env)))
+	}
+	e.assume("assumed channel contract in " + e.shortFuncName() + ": a receive changes only the declared locations and delivers a value satisfying recv_ensures")
 }
